@@ -92,7 +92,9 @@ func (c *cache) readerNotifier() {
 
 	for {
 		c.logger.Debugf("readerNotifier (%p) waiting for Key", c.closeNotifier)
+		verifPointS("notifier.idle", "")
 		ki := <-*c.closeNotifier
+		verifPointS("notifier.got", ki.Key.FsName())
 		k := ki.Key
 		rk := k.FsName()
 		c.logger.Debugf("readerNotifier (%p) got Key: %v / %v", c.closeNotifier, k.host+k.path, rk)
@@ -108,6 +110,7 @@ func (c *cache) readerNotifier() {
 			c.logger.Debugf("readerNotifier (%p) nothing to notify: %v / %v", c.closeNotifier, k.host+k.path, rk)
 		}
 		c.waitingReadersLock.Unlock()
+		verifPointS("notifier.done", rk)
 	}
 }
 
@@ -290,6 +293,7 @@ func (c *cache) Get(ctx context.Context, cacheId string, forceRevalidate int, sk
 func (c *cache) getReaderOrWriter(ctx context.Context, cacheId string, k Key, w http.ResponseWriter, isRevalidating bool, staleWhileRevalidate bool, logctx *apexlog.Logger) (CacheResult, error) {
 	rk := k.FsName()
 	c.waitingReadersLock.Lock()
+	verifPointS("grw.locked", rk)
 	//c.logger.Debugf("Checking if %v exists", rk)
 	var kind CacheResultKind
 	if _, exists := c.waitingReaders[rk]; exists {
@@ -372,6 +376,7 @@ func (c *cache) Finish(k Key, l *apexlog.Logger) {
 	}
 
 	l.Debugf("cache.Finish: %v / %v. %p", k.host+k.path, k.FsName(), c.closeNotifier)
+	verifPoint("finish.before-send", k)
 	*c.closeNotifier <- KeyInfo{Key: k}
 }
 
